@@ -153,7 +153,14 @@ def run(ctx, anchors=None):
     A = anchors or {"main_file": "btcdeb.cpp", "run": "ContinueScript", "print": "print_stack"}
     from . import common
     entry = common.main_of(fb, A["main_file"])
-    main = common.func_calling(fb, A["main_file"], A["run"])     # the driver: main itself or the worker it delegates to
+    runfn = common.func_calling(fb, A["main_file"], A["run"])    # the function that runs the script to completion
+    # the driver: the function of this file with the option handling, from which runfn is reached (main itself, a worker main
+    # delegates to, or the caller of a small helper that holds the non-interactive branch): the largest such function
+    cands = [runfn]
+    for g in fb.funcs.values():
+        if g.file == A["main_file"] and g.body is not None and g is not runfn and runfn.id in prog.reachable([g]):
+            cands.append(g)
+    main = max(cands, key=lambda g: len(g.nodes()))
     cfg = main.cfg()
     common.require_names(main, ["quiet", "verbose", "pipe_in", "pipe_out"], "R08")
     ctx.rule("R08.1", "no exception type escapes btcdeb's main() (explicit throws, minus enclosing handlers)")
@@ -163,27 +170,41 @@ def run(ctx, anchors=None):
     ctx.rule("R08.4", "quiet && verbose is refused with exit status 1 before any transaction, script or stack argument is parsed")
 
     # ---- the piped branch
-    ret0 = []
-    for n in main.nodes():
-        if n["k"] == "return" and astq.const_value(n.get("e")) == 0:
-            for (c, t) in S.ast_guards(main, n):
-                names = {x["n"] for x in walk(c) if x["k"] == "ref"}
-                if t and {"pipe_in", "pipe_out"} <= names:
-                    ret0.append(n)
-    runs = [n for n in main.nodes() if n["k"] == "call" and n.get("n") == A["run"]]
+    def piped(fn, n):
+        pg = False
+        for (c, t) in S.ast_guards(fn, n):
+            names = {x["n"] for x in walk(astq.expand(fn, c, keep=("pipe_in", "pipe_out")))if x["k"] == "ref"}
+            if t and names & {"pipe_in", "pipe_out"}:
+                pg = True
+        return pg
+    rcfg = runfn.cfg()
+    runs = [n for n in runfn.nodes() if n["k"] == "call" and n.get("n") == A["run"]]
     if len(runs) != 1:
-        raise AnalysisBroken("R08: expected one call of %s in main, found %d" % (A["run"], len(runs)))
+        raise AnalysisBroken("R08: expected one call of %s in %s, found %d" % (A["run"], runfn.name, len(runs)))
     runc = runs[0]
-    # the success exit: the piped `return 0` that the succeeding edge of the run reaches
-    ok_edge = [s_ for (a_, s_, c_, t_) in cfg.cond_edges() if c_ == runc["id"] and t_]
+    ret0 = [n for n in runfn.nodes() if n["k"] == "return" and astq.const_value(n.get("e")) == 0 and (runfn is not main or piped(runfn, n))]
+    # the success exit: the `return 0` that the succeeding edge of the run reaches
+    ok_edge = [s_ for (a_, s_, c_, t_) in rcfg.cond_edges() if c_ == runc["id"] and t_]
     if ok_edge:
-        reach_ok = cfg.reachable_from(ok_edge[0])
-        on_ok = [n for n in ret0 if cfg.position(n) and cfg.position(n)[0] in reach_ok]
+        reach_ok = rcfg.reachable_from(ok_edge[0])
+        on_ok = [n for n in ret0 if rcfg.position(n) and rcfg.position(n)[0] in reach_ok]
         if on_ok:
             ret0 = on_ok
     if len(ret0) != 1:
-        raise AnalysisBroken("R08: piped success `return 0` of the driver not found (found %d)" % len(ret0))
+        raise AnalysisBroken("R08: piped success `return 0` of %s not found (found %d)" % (runfn.name, len(ret0)))
     ret0 = ret0[0]
+    # when the branch lives in a helper, the driver must hand its exit status on: `return helper(...)` under the piped guard
+    ret0_main = ret0
+    if runfn is not main:
+        sites = [n for n in main.nodes() if astq.is_call(n) and n.get("cid") and any(g is runfn or runfn.id in prog.reachable([g]) for g in prog.resolve(n["cid"]) if g.file == A["main_file"])]
+        rets = [r for r in main.nodes() if r["k"] == "return" and any(S.contains(r, c_) for c_ in sites)]
+        ctx.site()
+        ctx.inst(len(sites) == 1 and len(rets) == 1 and piped(main, rets[0]), "R08.3", "helper-status-returned", main.loc(sites[0]) if sites else main.loc(),
+                 "the exit status of %s is returned by the driver, under the not-a-terminal condition" % runfn.name,
+                 "%s runs the piped branch but the driver does not `return` its status under the not-a-terminal condition" % runfn.name)
+        if len(rets) != 1:
+            raise AnalysisBroken("R08: the driver does not return the status of %s" % runfn.name)
+        ret0_main = rets[0]
 
     # ---- R08.1
     exc = ExcEngine(prog)
@@ -205,10 +226,10 @@ def run(ctx, anchors=None):
     else:
         ctx.ok("R08.1", "escape:main@btcdeb.cpp", entry.loc(), "no explicit throw can leave main() uncaught")
     # the run call specifically
-    esc_run = {t: w for t, w in exc.escaping(main, _enclosing_stmt(main, runc)).items()}
+    esc_run = {t: w for t, w in exc.escaping(runfn, _enclosing_stmt(runfn, runc)).items()}
     ctx.extra["soft_exception_inventory"] = soft
     # is the run call inside a try that catches std::exception or ...?
-    in_try = [a for a in main.ancestors(runc) if a.get("k") == "try" and S.contains(a["body"], runc)]
+    in_try = [a for a in runfn.ancestors(runc) if a.get("k") == "try" and S.contains(a["body"], runc)]
     ctx.extra["run_call_in_try"] = bool(in_try)
 
     # ---- R08.1b literal format strings
@@ -230,45 +251,53 @@ def run(ctx, anchors=None):
     mw, inventory = may_write_summaries(ctx)
     ctx.extra["stdout_writer_inventory"] = inventory
     ctx.floor("R08.2", len(inventory), 20, "direct stdout writers classified in the tree")
-    rp = cfg.position(ret0)
-    rej = reject_nodes(main)
     allowed = 0
-    for n in main.nodes():
-        writes = None
-        if is_stdout_write(n):
-            writes = ["main writes stdout at %s: %s" % (main.loc(n), astq.estr(n)[:70])]
-        elif astq.is_call(n) and n.get("cid"):
-            tg = [g for g in prog.resolve(n["cid"]) if g.id in mw]
-            if tg:
-                writes = ["main calls %s at %s" % (tg[0].name, main.loc(n))] + chain(fb, mw, tg[0].id)
-        if not writes:
-            continue
-        ctx.site()
-        p = cfg.position(n)
-        if p is None or p[0] not in cfg.reachable_blocks():
-            continue
-        # can this statement be followed by the piped `return 0`?
-        if not (rp[0] in cfg.reachable_from(p[0])):
-            continue
-        if quiet_guarded(main, n):
-            continue
-        if failure_only(main, n, rej):
-            continue
-        if n.get("n") == A["print"] and len(n["args"]) >= 2 and astq.const_value(n["args"][1]) == 1:
-            allowed += 1
-            ctx.ok("R08.2", "final-stack-print", main.loc(n), "print_stack(<stack>, raw=true) is the permitted stdout writer on the piped success path")
-            continue
-        last = writes[-1]
-        culprit = last.split(" writes stdout")[0] if " writes stdout" in last else (n.get("callee") or "main")
-        ctx.fail("R08.2", "stdout-on-success-path:" + culprit, main.loc(n),
-                 "stdout can receive more than the final stack on the non-interactive success path: " + " -> ".join(writes),
-                 detail={"chain": writes})
+
+    def scan(fn, fcfg, retnode):
+        nonlocal allowed
+        rp = fcfg.position(retnode)
+        rej = reject_nodes(fn)
+        for n in fn.nodes():
+            if retnode is not ret0 and S.contains(retnode, n):
+                continue      # the hand-over to the helper itself; the helper is scanned on its own
+            writes = None
+            if is_stdout_write(n):
+                writes = ["%s writes stdout at %s: %s" % (fn.name, fn.loc(n), astq.estr(n)[:70])]
+            elif astq.is_call(n) and n.get("cid"):
+                tg = [g for g in prog.resolve(n["cid"]) if g.id in mw]
+                if tg:
+                    writes = ["%s calls %s at %s" % (fn.name, tg[0].name, fn.loc(n))] + chain(fb, mw, tg[0].id)
+            if not writes:
+                continue
+            ctx.site()
+            p = fcfg.position(n)
+            if p is None or p[0] not in fcfg.reachable_blocks():
+                continue
+            # can this statement be followed by the piped `return 0`?
+            if not (rp[0] in fcfg.reachable_from(p[0])):
+                continue
+            if quiet_guarded(fn, n):
+                continue
+            if failure_only(fn, n, rej):
+                continue
+            if n.get("n") == A["print"] and len(n["args"]) >= 2 and astq.const_value(n["args"][1]) == 1:
+                allowed += 1
+                ctx.ok("R08.2", "final-stack-print", fn.loc(n), "print_stack(<stack>, raw=true) is the permitted stdout writer on the piped success path")
+                continue
+            last = writes[-1]
+            culprit = last.split(" writes stdout")[0] if " writes stdout" in last else (n.get("callee") or "main")
+            ctx.fail("R08.2", "stdout-on-success-path:" + culprit, fn.loc(n),
+                     "stdout can receive more than the final stack on the non-interactive success path: " + " -> ".join(writes),
+                     detail={"chain": writes})
+    scan(main, cfg, ret0_main)
+    if runfn is not main:
+        scan(runfn, rcfg, ret0)
     if allowed != 1:
-        ctx.fail("R08.2", "final-stack-print", main.loc(ret0), "expected exactly one print_stack(raw=true) before the piped return 0, found %d" % allowed)
+        ctx.fail("R08.2", "final-stack-print", runfn.loc(ret0), "expected exactly one print_stack(raw=true) before the piped return 0, found %d" % allowed)
 
     # ---- R08.3
     fail_succ = ok_succ = None
-    for (a, s, c, t) in cfg.cond_edges():
+    for (a, s, c, t) in rcfg.cond_edges():
         if c == runc["id"]:
             if t:
                 ok_succ = s
@@ -276,22 +305,22 @@ def run(ctx, anchors=None):
                 fail_succ = s
     if fail_succ is None or ok_succ is None:
         raise AnalysisBroken("R08.3: result of %s is not branched on" % A["run"])
-    nz = [n for n in main.nodes() if n["k"] == "return" and astq.const_value(n.get("e")) not in (None, 0)]
-    errw = [n for n in main.nodes() if n["k"] == "call" and n.get("n") in ("fprintf", "fputs") and
+    nz = [n for n in runfn.nodes() if n["k"] == "return" and astq.const_value(n.get("e")) not in (None, 0)]
+    errw = [n for n in runfn.nodes() if n["k"] == "call" and n.get("n") in ("fprintf", "fputs") and
             any(x["k"] == "ref" and x["n"] == "stderr" for a in n["args"] if a for x in walk(a))]
-    ctx.inst(cfg.must_pass_from_block(fail_succ, nz), "R08.3", "failure->nonzero-exit", main.loc(runc),
+    ctx.inst(rcfg.must_pass_from_block(fail_succ, nz), "R08.3", "failure->nonzero-exit", runfn.loc(runc),
              "every path from the failing edge of ContinueScript returns a non-zero constant",
              "after ContinueScript fails main can still return 0")
-    ctx.inst(cfg.must_pass_from_block(fail_succ, errw), "R08.3", "failure->stderr-message", main.loc(runc),
+    ctx.inst(rcfg.must_pass_from_block(fail_succ, errw), "R08.3", "failure->stderr-message", runfn.loc(runc),
              "the failing edge writes the script error to stderr")
-    pr = [n for n in main.nodes() if n["k"] == "call" and n.get("n") == A["print"] and len(n["args"]) >= 2 and astq.const_value(n["args"][1]) == 1]
-    okp = bool(pr) and cfg.must_pass_from_block(ok_succ, pr) and cfg.must_pass_from_block(ok_succ, [ret0]) \
-        and not any(cfg.position(x)[0] in cfg.reachable_from(ok_succ) for x in nz if cfg.position(x))
-    ctx.inst(okp, "R08.3", "success->print_stack(raw)+exit0", main.loc(ret0),
+    pr = [n for n in runfn.nodes() if n["k"] == "call" and n.get("n") == A["print"] and len(n["args"]) >= 2 and astq.const_value(n["args"][1]) == 1]
+    okp = bool(pr) and rcfg.must_pass_from_block(ok_succ, pr) and rcfg.must_pass_from_block(ok_succ, [ret0]) \
+        and not any(rcfg.position(x)[0] in rcfg.reachable_from(ok_succ) for x in nz if rcfg.position(x))
+    ctx.inst(okp, "R08.3", "success->print_stack(raw)+exit0", runfn.loc(ret0),
              "the succeeding edge always prints the raw stack and returns 0")
     if pr:
         arg0 = astq.estr(pr[0]["args"][0])
-        ctx.inst(arg0.endswith("stack") and "alt" not in arg0 and "p2sh" not in arg0, "R08.3", "prints-the-main-stack", main.loc(pr[0]),
+        ctx.inst(arg0.endswith("stack") and "alt" not in arg0 and "p2sh" not in arg0, "R08.3", "prints-the-main-stack", runfn.loc(pr[0]),
                  "the printed container is the session's main stack (%s)" % arg0)
 
     # ---- R08.4
